@@ -162,8 +162,10 @@ class TextObject:
         # For Vi mode, the SelectionState does include the upper position,
         # while `self.operator_range` does not. So, go one to the left, unless
         # we're in the line mode, then we don't want to risk going to the
-        # previous line, and missing one line in the selection.
-        if self.type != TextObjectType.LINEWISE:
+        # previous line, and missing one line in the selection. (A block text
+        # object comes from a visual block selection: `operator_range` did
+        # not move its end, so there is nothing to undo either.)
+        if self.type not in (TextObjectType.LINEWISE, TextObjectType.BLOCK):
             to -= 1
 
         document = Document(
